@@ -20,7 +20,9 @@ TRUSTED = [
     'messages queued by hub.delay_callbacks inside new_subset_group/remove_subset_group are SubsetCreate/Delete messages; no modelled state depends on them',
 ]
 ASSUMPTIONS = [
-    'histories are over {append, remove, re-append, new group, remove group, set state/label/style, merge, clear}; undo/redo histories are C13, session restore is C02',
+    'histories are over {append, remove, re-append, new group, remove group, set state/label/style, merge, clear}; undo/redo histories are proved and explored in C13 '
+    '(theorem collection_invariant_through_history, and the C13 harness evaluates this oracle after every do/undo/redo); session restore is explored by the oracle-only '
+    'stream `restore` (no model of the serializer: that is C02)',
     'datasets carry no hand-made ungrouped Subset (client code is told to create subsets through new_subset_group only)',
     'a removed group object keeps its own dead `subsets` list (no dataset carries those subsets); that list is not part of the live membership',
 ]
@@ -618,6 +620,56 @@ def stream_random(R, ncolors):
                    'random expressions of depth <= 2; observation after every step')
 
 
+def restored_impl(im):
+    """save the collection with GlueSerializer, load it back, and wrap the restored objects for the oracle"""
+    from glue.core.state import GlueSerializer, GlueUnSerializer
+    text = GlueSerializer(im.dc).dumps()
+    dc2 = GlueUnSerializer.loads(text).object('__main__')
+    im2 = Impl.__new__(Impl)
+    im2.Data = im.Data
+    im2.dc = dc2
+    im2.datas = list(dc2.data)
+    im2.grps = list(dc2.subset_groups)
+    im2.sid, im2.keep, im2.removed_d, im2.removed_g = {}, [], set(), set()
+    return im2
+
+
+def stream_restore(R):
+    """oracle only: the invariant on a restored session, and after a few more operations on it"""
+    n = R.pick(150, 2000)
+    for i in range(n):
+        rng = R.subrng('restore', i)
+        pool = rng.choice([2, 3, 4])
+        ops = gen_random_ops(rng, pool, rng.choice([4, 8, 16]))
+        res, im = run_impl(pool, ops, every_step=False)
+        R.count(('restore',) + ops_key(pool, ops), nontrivial=nontrivial(ops), stream='restore', length=len(ops))
+        if res[-1][1]:
+            continue        # already reported by the random stream's twin; a broken collection is not worth restoring
+        im2 = restored_impl(im)
+        bad = im2.oracle()
+        shape_a = sorted((d.label, len(d.subsets)) for d in im.dc.data), len(im.dc.subset_groups)
+        shape_b = sorted((d.label, len(d.subsets)) for d in im2.dc.data), len(im2.dc.subset_groups)
+        if shape_a != shape_b:
+            bad.append('restored collection has another shape: %r -> %r' % (shape_a, shape_b))
+        tail = []
+        if not bad:
+            nd = len(im2.datas)
+            im2.datas.append(None)                      # one more pool dataset after the restore
+            tail = [('newgroup', None), ('append', nd), ('remove', 0), ('append', 0), ('rmgroup', 0), ('remove', nd), ('append', nd)]
+            tail = [o for o in tail if not (o[0] in ('remove', 'append') and o[1] == 0 and nd == 0)]
+            for k, o in enumerate(tail):
+                im2.apply(o)
+                bad = im2.oracle()
+                if bad:
+                    tail = tail[:k + 1]
+                    break
+        if bad:
+            R.fail('oracle', {'stream': 'restore', 'pool': pool, 'ops': ops, 'after_restore': tail}, {'violations': bad[:6]}, key=None)
+    R.stream('restore', cases=n, exhaustive=False,
+             bound='random histories of length 4..16, then GlueSerializer -> GlueUnSerializer, the invariant on the restored collection, then 7 more '
+                   'operations (new group, append new, remove / re-append a restored dataset, remove group) with the invariant after each; oracle only')
+
+
 def stream_malformed(R, ncolors):
     cases = [
         (2, [('merge', [])]), (2, [('merge', [0])]), (2, [('append', 0), ('newgroup', None), ('merge', [0])]),
@@ -639,6 +691,7 @@ def run(R):
               'least one dataset (so that at least one (dataset, group) pair must be populated); distinct = distinct (pool, op sequence)')
     stream_malformed(R, ncolors)
     stream_random(R, ncolors)
+    stream_restore(R)
     stream_exhaustive(R, ncolors)
     R.exhaustive = True
 
@@ -648,6 +701,18 @@ def replay(R, case):
     ncolors = len(settings.SUBSET_COLORS)
     pool = case['pool']
     ops = [tuple(_untuple(x) for x in o) for o in case['ops']]
+    if case.get('stream') == 'restore':
+        res, im = run_impl(pool, ops, every_step=False)
+        im2 = restored_impl(im)
+        bad = im2.oracle()
+        if not bad and case.get('after_restore'):
+            im2.datas.append(None)
+            for o in case['after_restore']:
+                im2.apply(tuple(_untuple(x) for x in o))
+                bad = im2.oracle()
+                if bad:
+                    break
+        return {'case': case, 'oracle': bad, 'violates': bool(bad)}
     res, im = run_impl(pool, ops)
     out = {'case': case, 'steps': []}
     viol = False
